@@ -259,17 +259,63 @@ pub fn run(thorough: bool) -> Outcome {
         }
         r
     });
+    let mut rep = rep;
+    dispatcher_threads(&mut rep, &bs, &workers);
     Outcome {
         report: rep,
-        rule: "108 base frames (incl. raw-IP packets whose bytes 12/13 are near misses of an IP EtherType) (IPv4 header-length fields 0..15 and IPv6, Ethernet and raw, SYN and data segment): every truncation x every worker count 1..64 (valid index, deterministic, complete frames never discarded); every byte that is not structural (version/IHL, protocol, ethertype) rewritten to every value of the tier's value set x worker counts: the index may change only for identity bytes (TCP: source address; HTTP/TLS: addresses and ports); truncations keeping the identity give the same index, and so do extensions of the frame to IP-part lengths 1500 .. 65535, 65536 .. 65536+64, 70000, 131072(+20); HTTP index equal for the swapped direction; distinct = distinct (pool, workers, index) outcomes".into(),
+        rule: "108 base frames (incl. raw-IP packets whose bytes 12/13 are near misses of an IP EtherType) (IPv4 header-length fields 0..15 and IPv6, Ethernet and raw, SYN and data segment): every truncation x every worker count 1..64 (valid index, deterministic, complete frames never discarded); every byte that is not structural (version/IHL, protocol, ethertype) rewritten to every value of the tier's value set x worker counts: the index may change only for identity bytes (TCP: source address; HTTP/TLS: addresses and ports); truncations keeping the identity give the same index, and so do extensions of the frame to IP-part lengths 1500 .. 65535, 65536 .. 65536+64, 70000, 131072(+20); HTTP index equal for the swapped direction; every base frame x pool x worker count computed on four freshly started threads and on the calling thread (dispatch takes &self, a pool is shared between dispatcher threads: the worker of a packet does not depend on who dispatches it); distinct = distinct (pool, workers, index) outcomes".into(),
         exhaustive: true,
         bounds: json!({"bases": bs.len(), "byte_values": values.len(), "worker_counts_for_rewrites": workers.len()}),
+    }
+}
+
+/// `dispatch(&self)` may be called from any thread (the pools are handed out as `Arc<WorkerPool>`): the worker a packet is
+/// sent to must not depend on the dispatching thread. Every base frame x pool x worker count, on four fresh threads.
+fn dispatcher_threads(r: &mut Report, bs: &[Base], workers: &[usize]) {
+    let table = |bs: &[Base], workers: &[usize]| -> Vec<Option<usize>> {
+        let mut v = vec![];
+        for b in bs {
+            for pool in [Pool::Tcp, Pool::Http, Pool::Tls] {
+                for &w in workers {
+                    v.push(index(pool, &b.frame, w));
+                }
+            }
+        }
+        v
+    };
+    let here = match guarded(|| table(bs, workers)) {
+        Ok(t) => t,
+        Err(p) => {
+            r.dev("C18/panic", "panic", || json!({"kind": "dispatcher-threads", "detail": p}));
+            return;
+        }
+    };
+    let others: Vec<Result<Vec<Option<usize>>, String>> = std::thread::scope(|sc| {
+        let hs: Vec<_> = (0..4).map(|_| sc.spawn(|| guarded(|| table(bs, workers)))).collect();
+        hs.into_iter().map(|h| h.join().unwrap_or_else(|_| Err("thread panicked".into()))).collect()
+    });
+    for (ti, o) in others.iter().enumerate() {
+        r.exec(here.len() as u64);
+        match o {
+            Err(p) => r.dev("C18/panic", "panic", || json!({"kind": "dispatcher-threads", "thread": ti, "detail": p})),
+            Ok(t) => {
+                if let Some(i) = (0..here.len()).find(|&i| t[i] != here[i]) {
+                    let per_base = 3 * workers.len();
+                    let (bi, pi, wi) = (i / per_base, i % per_base / workers.len(), i % workers.len());
+                    r.dev(format!("C18/{}/index-depends-on-the-dispatching-thread", ["tcp", "http", "tls"][pi]), "dispatcher-thread", || json!({"kind": "dispatcher-threads", "base": bs[bi].name, "workers": workers[wi], "calling_thread": here[i], "other_thread": t[i], "thread": ti}));
+                }
+            }
+        }
     }
 }
 
 pub fn replay(ex: &Value) -> Report {
     let mut r = Report::new();
     let bs = bases();
+    if ex["kind"].as_str() == Some("dispatcher-threads") {
+        dispatcher_threads(&mut r, &bs, &(1..=64).collect::<Vec<usize>>());
+        return r;
+    }
     match bs.iter().find(|b| Some(b.name.as_str()) == ex["base"].as_str()) {
         Some(b) => check_base(&mut r, b, &(0..=255).collect::<Vec<u8>>(), &(1..=64).collect::<Vec<usize>>()),
         None => r.machinery_error("bad replay file"),
